@@ -184,10 +184,9 @@ def expand_py(m, toks):
     return ''.join(out)
 
 
-def py_subst(content, rx, rxnb, toks, g, lctx, coderule):
-    """the reference (lctx=False, coderule=False) and its variants that reproduce the two recorded
-    root causes: lctx = every later search sees only the rest of the line; coderule = a character is
-    stepped over only when the match END is at the start of the searched rest"""
+def py_subst(content, rx, rxnb, toks, g, lctx):
+    """the reference (lctx=False) and the variant that reproduces the recorded root cause KF-LCTX:
+    every later search sees only the rest of the line"""
     out = []
     pos, n, first, k = 0, len(content), True, 0
     while True:
@@ -203,9 +202,8 @@ def py_subst(content, rx, rxnb, toks, g, lctx, coderule):
         out.append(content[pos:s])
         out.append(expand_py(m, toks))
         k += 1
-        step = (e - pos <= 0) if coderule else (e == s)
         pos = e
-        if step:
+        if e == s:                      # one character is stepped over after every empty match
             if pos < n:
                 out.append(content[pos])
                 pos += 1
@@ -277,8 +275,8 @@ def run(ctx):
                 closing = True
                 if not g and rng.chance(1, 6):
                     closing = False             # s/a/b  without the closing delimiter
-                text = rtxt + 's' + d + (esc_delim(pat.nv, d) if pat else '') + d + esc_delim(rep_src, d) + (d + flags if closing else '')
-                cmds.append({'range': rg, 'text': text, 'pat': pat, 'toks': toks, 'g': g})
+                body = 's' + d + (esc_delim(pat.nv, d) if pat else '') + d + esc_delim(rep_src, d) + (d + flags if closing else '')
+                cmds.append({'range': rg, 'text': rtxt + body, 'body': body, 'pat': pat, 'toks': toks, 'g': g})
             kind = 'two commands' if ncmd == 2 else 'one command'
             cases.append({'ic': ic, 'lines': lines, 'cmds': cmds, 'kind': kind, 'corpus': False})
 
@@ -362,6 +360,63 @@ def run(ctx):
                     mstate[i]['ok'] = False
                     mstate[i]['why'] = o
 
+    # ---------------------------------------------------------------- the reference and the shrinker
+    def reference(c, lctx):
+        buf = list(c['lines'])
+        last = None
+        for cm in c['cmds']:
+            p = cm['pat'] or last
+            if p is None:
+                continue
+            last = p
+            try:
+                rx = re.compile(p.py)
+                rxnb = re.compile(p.pynb)
+            except re.error:
+                return None
+            b, e = cm['range']
+            for ln in range(b - 1, e):
+                buf[ln], _ = py_subst(buf[ln], rx, rxnb, cm['toks'], cm['g'], lctx)
+        return ''.join(l + '\n' for l in buf).encode('utf-8')
+
+    def failing(c):
+        want = reference(c, False)
+        if want is None:
+            return False
+        r = run_impl(c)
+        got = r.files.get('o')
+        if r.crashed() or got is None or got == want:
+            return False
+        if any(cm['pat'] and cm['pat'].word for cm in c['cmds']) and got == reference(c, True):
+            return False                # the recorded root cause KF-LCTX, not the violation being shrunk
+        return True
+
+    shrunk = [0]
+
+    def shrink_case(c):
+        """one command, one line, then delta debugging on the characters of that line"""
+        if shrunk[0] >= 3:
+            return c
+        shrunk[0] += 1
+        best = c
+        if len(best['cmds']) == 2:
+            for j in (1, 0):
+                if best['cmds'][j]['pat'] is not None:
+                    cand = dict(best, cmds=[best['cmds'][j]])
+                    if failing(cand):
+                        best = cand
+                        break
+        if len(best['lines']) > 1:
+            for l in best['lines']:
+                cand = dict(best, lines=[l], cmds=[dict(cm, range=(1, 1), text='1' + cm['body']) for cm in best['cmds']])
+                if failing(cand):
+                    best = cand
+                    break
+        if len(best['lines']) == 1 and len(best['lines'][0]) > 1:
+            sm = vlib.shrink(list(best['lines'][0]), lambda sub: failing(dict(best, lines=[''.join(sub)])), max_steps=40)
+            best = dict(best, lines=[''.join(sm)])
+        return best
+
     # ---------------------------------------------------------------- compare
     def desc(c, expect=None):
         d = {'ic': c['ic'], 'lines': c['lines'], 'cmds': [{'range': list(cm['range']), 'text': cm['text']} for cm in c['cmds']]}
@@ -412,26 +467,7 @@ def run(ctx):
                 res.violation({'what': c.get('what', 'corpus case: buffer after the substitute differs from the recorded expectation'), 'input': [desc(c)],
                                'expected': want.decode('utf-8'), 'observed': got_file.decode('utf-8', 'replace')}, kf=c.get('kf'))
             continue
-        variants = {}
-        for name, (lctx, coderule) in {'ideal': (False, False), 'lctx': (True, False), 'twice': (False, True), 'both': (True, True)}.items():
-            buf = list(c['lines'])
-            last = None
-            bad = False
-            for cm in c['cmds']:
-                p = cm['pat'] or last
-                if p is None:
-                    continue
-                last = p
-                try:
-                    rx = re.compile(p.py)
-                    rxnb = re.compile(p.pynb)
-                except re.error:
-                    bad = True
-                    break
-                b, e = cm['range']
-                for ln in range(b - 1, e):
-                    buf[ln], _ = py_subst(buf[ln], rx, rxnb, cm['toks'], cm['g'], lctx, coderule)
-            variants[name] = None if bad else ''.join(l + '\n' for l in buf).encode('utf-8')
+        variants = {'ideal': reference(c, False), 'lctx': reference(c, True)}
         if variants['ideal'] is None:
             res.count('skipped (reference cannot express the pattern)')
             continue
@@ -455,15 +491,13 @@ def run(ctx):
         if word and got_file == variants['lctx']:
             v['what'] = 'a later search of :s///g sees only the rest of the line: \\< / \\> at its start are judged without the real left neighbour'
             res.violation(v, kf='KF-LCTX')
-        elif got_file == variants['twice']:
-            v['what'] = 'an empty match that does not start at the beginning of the searched rest is not stepped over and is replaced a second time'
-            res.violation(v, kf='KF-EMPTY-TWICE')
-        elif word and got_file == variants['both']:
-            v['what'] = 'suffix matching hides the left neighbour (KF-LCTX) and an empty match behind the start of the searched rest is replaced twice (KF-EMPTY-TWICE)'
-            a = res.violation(dict(v), kf='KF-LCTX')
-            if not a:
-                res.violation(v, kf='KF-EMPTY-TWICE')
         else:
+            c2 = shrink_case(c)
+            if c2 is not c and failing(c2):
+                want2 = reference(c2, False)
+                got2 = run_impl(c2).files.get('o') or b''
+                v = dict(v, input=[desc(c2, want2)], script=script_of(c2).decode('utf-8'), expected=want2.decode('utf-8'),
+                         observed=got2.decode('utf-8', 'replace'), unshrunk=desc(c, variants['ideal']))
             res.violation(v)
     for c in cases[:400:67]:
         res.sample({'ic': c['ic'], 'lines': c['lines'], 'cmds': [cm['text'] for cm in c['cmds']]})
